@@ -48,6 +48,7 @@ var redirects = map[string]map[string]string{
 	"ui/telnet/telnet.go":   {"net": "crsim/simnet"},
 	"nsqd/diskqueue.go":     {"os": "crsim/simos"},
 	"route/grafananet.go":   {"net": "crsim/simnet", "net/http": "crsim/simhttp"},
+	"route/kafkamdm.go":     {"github.com/Shopify/sarama": "crsim/simsarama"},
 	mainDir + "/carbon-relay-ng.go": {"os": "crsim/simos", "io/ioutil": "crsim/simos/ioutil"},
 }
 
